@@ -1,18 +1,11 @@
 import GlueVerif.Lemmas.C02RoundTrip
-/-! `serialize` succeeds on every well-formed graph without inlined objects (the fixpoint loop stops
-within `|heap| + 1` passes: the registry is injective and bounded by the heap), and the Boolean
-hypotheses used by the driver mean what the lemmas assume. -/
+/-! `serialize` succeeds on every well-formed graph whose inlined objects form a forest (the fixpoint
+loop stops within `|heap| + 1` passes: the registry is injective and bounded by the heap; `do` never
+meets its `_working` guard nor runs out of depth because inline edges strictly decrease `idep`), and
+the Boolean hypotheses used by the driver mean what the lemmas assume. -/
 namespace GlueVerif.C02
 
 /-! ### Boolean hypotheses as propositions -/
-
-theorem noOwn_iff (h : Heap) : noOwn h = true → NoOwn h := by
-  intro hb ob hob f hf p hp
-  unfold noOwn at hb
-  have := (List.all_eq_true.mp hb) ob hob
-  have := (List.all_eq_true.mp this) f hf
-  rw [hp] at this
-  cases this
 
 theorem allEarly_iff (h : Heap) : allEarly h = true → ∀ ob ∈ h, ∀ f ∈ ob.fields, f.phase = .early := by
   intro hb ob hob f hf
@@ -22,7 +15,7 @@ theorem allEarly_iff (h : Heap) : allEarly h = true → ∀ ob ∈ h, ∀ f ∈ 
   simpa using this
 
 theorem acyclicBy_iff (rank : Nat → Nat) (h : Heap) : acyclicBy rank h = true →
-    ∀ o ob, h[o]? = some ob → ∀ f ∈ ob.fields, ∀ p, f.val = .ref p → rank p < rank o := by
+    ∀ o ob, h[o]? = some ob → ∀ f ∈ ob.fields, ∀ p, f.val.target = some p → rank p < rank o := by
   intro hb o ob hob f hf p hp
   unfold acyclicBy at hb
   have ho : o < h.length := by
@@ -30,11 +23,11 @@ theorem acyclicBy_iff (rank : Nat → Nat) (h : Heap) : acyclicBy rank h = true 
   have := (List.all_eq_true.mp hb) o (List.mem_range.mpr ho)
   simp only [hob] at this
   have := (List.all_eq_true.mp this) f hf
-  simp only [hp, Val.target, decide_eq_true_eq] at this
+  simp only [hp, decide_eq_true_eq] at this
   exact this
 
 theorem wellFormed_iff (h : Heap) (main : Nat) : wellFormed h main = true →
-    main < h.length ∧ ∀ ob ∈ h, ∀ f ∈ ob.fields, ∀ p, f.val = .ref p → p < h.length := by
+    main < h.length ∧ ∀ ob ∈ h, ∀ f ∈ ob.fields, ∀ p, f.val.target = some p → p < h.length := by
   intro hb
   unfold wellFormed at hb
   rw [Bool.and_eq_true] at hb
@@ -42,8 +35,52 @@ theorem wellFormed_iff (h : Heap) (main : Nat) : wellFormed h main = true →
   intro ob hob f hf p hp
   have := (List.all_eq_true.mp hb.2) ob hob
   have := (List.all_eq_true.mp this) f hf
-  simp only [hp, Val.target, decide_eq_true_eq] at this
+  simp only [hp, decide_eq_true_eq] at this
   exact this
+
+/-- what `inlineForestBy` provides -/
+structure InlineForest (idep : Nat → Nat) (h : Heap) (main : Nat) : Prop where
+  depth : ∀ o, o < h.length → idep o ≤ h.length
+  edge : ∀ (o : Nat) (ob : Obj), h[o]? = some ob → ∀ f ∈ ob.fields, ∀ p, f.val = Val.own p → idep p < idep o ∧ f.phase ≠ .cb
+  /-- an inlined object has a plain loader, is not `main` and is never referred to by name -/
+  inl : ∀ (o : Nat) (ob : Obj), h[o]? = some ob → ∀ f ∈ ob.fields, ∀ p, f.val = Val.own p → ∀ obp : Obj, h[p]? = some obp →
+    (∀ x ∈ obp.fields, x.phase = .early) ∧ p ≠ main ∧ isRefTarget h p = false
+
+theorem inlineForestBy_iff (idep : Nat → Nat) (h : Heap) (main : Nat) (hb : inlineForestBy idep h main = true) :
+    InlineForest idep h main := by
+  unfold inlineForestBy at hb
+  have key := List.all_eq_true.mp hb
+  refine ⟨?_, ?_, ?_⟩
+  · intro o ho
+    have := key o (List.mem_range.mpr ho)
+    simp only [Bool.and_eq_true, decide_eq_true_eq] at this
+    exact this.1.1
+  · intro o ob hob f hf p hp
+    have ho : o < h.length := by
+      obtain ⟨ho, _⟩ := List.getElem?_eq_some_iff.mp hob; exact ho
+    have := key o (List.mem_range.mpr ho)
+    simp only [Bool.and_eq_true, hob] at this
+    have := (List.all_eq_true.mp this.1.2) f hf
+    simp only [hp, Bool.and_eq_true, decide_eq_true_eq, bne_iff_ne, ne_eq] at this
+    exact this
+  · intro o ob hob f hf p hp obp hobp
+    have hpl : p < h.length := by
+      obtain ⟨hpl, _⟩ := List.getElem?_eq_some_iff.mp hobp; exact hpl
+    have := key p (List.mem_range.mpr hpl)
+    simp only [Bool.and_eq_true] at this
+    have hin : isInlined h p = true := by
+      unfold isInlined
+      rw [List.any_eq_true]
+      refine ⟨ob, List.mem_of_getElem? hob, ?_⟩
+      rw [List.any_eq_true]
+      exact ⟨f, hf, by simp [hp]⟩
+    have h3 := this.2
+    simp only [hin, Bool.not_true, Bool.false_or, Bool.and_eq_true, hobp, bne_iff_ne, ne_eq,
+      Bool.not_eq_true'] at h3
+    refine ⟨?_, h3.1.1.1, h3.1.1.2⟩
+    intro x hx
+    have := (List.all_eq_true.mp h3.2) x hx
+    simpa using this
 
 /-! ### no errors -/
 
@@ -62,43 +99,75 @@ theorem idObj_bounded (st : SState) (p : Nat) (hp : p < h.length) (hb : Bounded 
     · exact hb x a
     · simp only [List.mem_singleton] at a; subst a; exact hp
 
-theorem doFields_total {doO : DoO} (hwf : ∀ ob ∈ h, ∀ f ∈ ob.fields, ∀ p, f.val = .ref p → p < h.length)
-    (ob : Obj) (hob : ob ∈ h) : ∀ (fs : List Field), NoOwnFields fs → (∀ f ∈ fs, f ∈ ob.fields) → ∀ (st : SState),
-      Bounded h st.reg → ∃ st' js, doFields h main doO st fs = .ok (st', js) ∧ Bounded h st'.reg
-  | [], _, _, st, hb => ⟨st, [], rfl, hb⟩
-  | f :: fs, hno, hsub, st, hb => by
-    have hno' : NoOwnFields fs := fun g hg => hno g (List.mem_cons_of_mem _ hg)
+/-- a `do` of the inlined object `p` succeeds when the depth left suffices and `p` is not being serialized -/
+def DoOTotal (idep : Nat → Nat) (d : Nat) (doO : DoO) : Prop :=
+  ∀ st p, p < h.length → idep p < d → (∀ a ∈ st.working, idep p < idep a) → Bounded h st.reg →
+    ∃ st' j, doO st p = .ok (st', j) ∧ Bounded h st'.reg
+
+theorem doFields_total {doO : DoO} {idep : Nat → Nat} {d : Nat} (hT : DoOTotal h idep d doO) (hW : DoOWork doO)
+    (hwf : ∀ ob ∈ h, ∀ f ∈ ob.fields, ∀ p, f.val.target = some p → p < h.length)
+    (cur : Nat) (ob : Obj) (hcur : h[cur]? = some ob) (hdep : idep cur ≤ d)
+    (hedge : ∀ f ∈ ob.fields, ∀ p, f.val = .own p → idep p < idep cur) :
+    ∀ (fs : List Field), (∀ f ∈ fs, f ∈ ob.fields) → ∀ (st : SState),
+      (∀ a ∈ st.working, idep cur ≤ idep a) → Bounded h st.reg →
+      ∃ st' js, doFields h main doO st fs = .ok (st', js) ∧ Bounded h st'.reg
+  | [], _, st, _, hb => ⟨st, [], rfl, hb⟩
+  | f :: fs, hsub, st, hw, hb => by
     have hsub' : ∀ g ∈ fs, g ∈ ob.fields := fun g hg => hsub g (List.mem_cons_of_mem _ hg)
+    have hfm : f ∈ ob.fields := hsub f List.mem_cons_self
+    have hobm : ob ∈ h := List.mem_of_getElem? hcur
     have head : ∃ st1 j, doField h main doO st f.val = .ok (st1, j) ∧ Bounded h st1.reg := by
       cases hv : f.val with
       | lit n => exact ⟨st, _, rfl, hb⟩
       | str s => exact ⟨st, _, rfl, hb⟩
       | ref p =>
-        exact ⟨_, _, rfl, idObj_bounded h main st p (hwf ob hob f (hsub f List.mem_cons_self) p hv) hb⟩
-      | own p => exact absurd hv (hno f List.mem_cons_self p)
+        exact ⟨_, _, rfl, idObj_bounded h main st p (hwf ob hobm f hfm p (by rw [hv]; rfl)) hb⟩
+      | own p =>
+        have hlt := hedge f hfm p hv
+        obtain ⟨st1, j, e1, b1⟩ := hT st p (hwf ob hobm f hfm p (by rw [hv]; rfl)) (by omega)
+          (fun a ha => by have := hw a ha; omega) hb
+        exact ⟨st1, j, e1, b1⟩
     obtain ⟨st1, j, e1, b1⟩ := head
-    obtain ⟨st2, js, e2, b2⟩ := doFields_total (doO := doO) hwf ob hob fs hno' hsub' st1 b1
+    have hw1 : ∀ a ∈ st1.working, idep cur ≤ idep a := by
+      rw [doField_work h main hW e1]; exact hw
+    obtain ⟨st2, js, e2, b2⟩ := doFields_total hT hW hwf cur ob hcur hdep hedge fs hsub' st1 hw1 b1
     exact ⟨st2, (f.phase, j) :: js, by simp only [doFields, e1, e2], b2⟩
 
-theorem doObj_total (hno : NoOwn h) (hwf : ∀ ob ∈ h, ∀ f ∈ ob.fields, ∀ p, f.val = .ref p → p < h.length)
-    (f : Nat) (st : SState) (o : Nat) (ho : o < h.length) (hw : st.working = []) (hb : Bounded h st.reg) :
-    ∃ st' j, doObj h main (f + 1) st o = .ok (st', j) ∧ Bounded h st'.reg := by
-  have hob : h[o]? = some h[o] := List.getElem?_eq_getElem ho
-  have hmem : h[o] ∈ h := List.getElem_mem ho
-  obtain ⟨st1, js, e1, b1⟩ := doFields_total h main (doO := doObj h main f) hwf h[o] hmem h[o].fields (hno _ hmem)
-    (fun _ hf => hf) { st with working := o :: st.working } hb
-  refine ⟨{ st1 with working := st1.working.erase o }, .obj h[o].cls js, ?_, b1⟩
-  rw [hw] at e1
-  simp only [doObj, hw, List.contains_nil, Bool.false_eq_true, if_false, hob, e1]
+theorem doObj_total {idep : Nat → Nat}
+    (hwf : ∀ ob ∈ h, ∀ f ∈ ob.fields, ∀ p, f.val.target = some p → p < h.length)
+    (hedge : ∀ o ob, h[o]? = some ob → ∀ f ∈ ob.fields, ∀ p, f.val = .own p → idep p < idep o) :
+    ∀ (f : Nat), DoOTotal h idep f (doObj h main f)
+  | 0 => by intro st p _ hd; omega
+  | f + 1 => by
+    intro st o ho hd hw hb
+    have hob : h[o]? = some h[o] := List.getElem?_eq_getElem ho
+    have hnw : st.working.contains o = false := by
+      rw [List.contains_eq_mem, decide_eq_false_iff_not]
+      intro hm
+      have := hw o hm; omega
+    obtain ⟨st1, js, e1, b1⟩ := doFields_total h main (doObj_total hwf hedge f) (doObj_work h main f) hwf o h[o] hob
+      (by omega) (hedge o h[o] hob) h[o].fields (fun _ hf => hf) { st with working := o :: st.working }
+      (by
+        intro a ha
+        rcases List.mem_cons.mp ha with e | e
+        · rw [e]; exact Nat.le_refl _
+        · have := hw a e; omega) hb
+    refine ⟨{ st1 with working := st1.working.erase o }, .obj h[o].cls js, ?_, b1⟩
+    simp only [doObj, hnw, Bool.false_eq_true, if_false, hob, e1]
 
-theorem doPass_total (hno : NoOwn h) (hwf : ∀ ob ∈ h, ∀ f ∈ ob.fields, ∀ p, f.val = .ref p → p < h.length)
-    (fuel : Nat) : ∀ (items : Reg) (st : SState), Bounded h items → st.working = [] → Bounded h st.reg →
-      ∃ st' tbl, doPass h main (fuel + 1) st items = .ok (st', tbl) ∧ Bounded h st'.reg
+theorem doPass_total {idep : Nat → Nat}
+    (hwf : ∀ ob ∈ h, ∀ f ∈ ob.fields, ∀ p, f.val.target = some p → p < h.length)
+    (hedge : ∀ o ob, h[o]? = some ob → ∀ f ∈ ob.fields, ∀ p, f.val = .own p → idep p < idep o)
+    (hdepth : ∀ o, o < h.length → idep o ≤ h.length) :
+    ∀ (items : Reg) (st : SState), Bounded h items → st.working = [] → Bounded h st.reg →
+      ∃ st' tbl, doPass h main (h.length + 1) st items = .ok (st', tbl) ∧ Bounded h st'.reg
   | [], st, _, _, hb => ⟨st, [], rfl, hb⟩
   | (o, n) :: rest, st, hbi, hw, hb => by
-    obtain ⟨st1, j, e1, b1⟩ := doObj_total h main hno hwf fuel st o (hbi (o, n) List.mem_cons_self) hw hb
+    have ho : o < h.length := hbi (o, n) List.mem_cons_self
+    obtain ⟨st1, j, e1, b1⟩ := doObj_total h main hwf hedge (h.length + 1) st o ho
+      (by have := hdepth o ho; omega) (by intro a ha; rw [hw] at ha; simp at ha) hb
     have hw1 : st1.working = [] := by rw [doObj_work h main _ _ _ _ _ e1, hw]
-    obtain ⟨st2, js, e2, b2⟩ := doPass_total hno hwf fuel rest st1
+    obtain ⟨st2, js, e2, b2⟩ := doPass_total hwf hedge hdepth rest st1
       (fun e he => hbi e (List.mem_cons_of_mem _ he)) hw1 b1
     exact ⟨st2, (n, j) :: js, by simp only [doPass, e1, e2], b2⟩
 
@@ -110,27 +179,32 @@ theorem bounded_length {reg : Reg} (hnd : (reg.map Prod.fst).Nodup) (hb : Bounde
   have := List.Nodup.length_le_of_subset hnd hsub
   simpa using this
 
-theorem doAll_total (hno : NoOwn h) (hwf : ∀ ob ∈ h, ∀ f ∈ ob.fields, ∀ p, f.val = .ref p → p < h.length)
-    (fuel : Nat) : ∀ (k : Nat) (st : SState), Between h main st → Bounded h st.reg → h.length - st.reg.length < k →
-      ∃ st' tbl, doAll h main (fuel + 1) k st = .ok (st', tbl)
+theorem doAll_total {idep : Nat → Nat}
+    (hwf : ∀ ob ∈ h, ∀ f ∈ ob.fields, ∀ p, f.val.target = some p → p < h.length)
+    (hedge : ∀ o ob, h[o]? = some ob → ∀ f ∈ ob.fields, ∀ p, f.val = .own p → idep p < idep o)
+    (hdepth : ∀ o, o < h.length → idep o ≤ h.length) :
+    ∀ (k : Nat) (st : SState), Between h main st → Bounded h st.reg → h.length - st.reg.length < k →
+      ∃ st' tbl, doAll h main (h.length + 1) k st = .ok (st', tbl)
   | 0, _, _, _, hk => absurd hk (Nat.not_lt_zero _)
   | k + 1, st, hbt, hb, hk => by
-    obtain ⟨st1, tbl, e1, b1⟩ := doPass_total h main hno hwf fuel st.reg st hb hbt.idle hb
+    obtain ⟨st1, tbl, e1, b1⟩ := doPass_total h main hwf hedge hdepth st.reg st hb hbt.idle hb
     by_cases hlen : st1.reg.length = st.reg.length
     · exact ⟨st1, tbl, by simp only [doAll, e1, hlen, if_true]⟩
-    · have hbt1 := between_pass h main hno fuel hbt e1
+    · have hbt1 := between_pass h main hbt e1
       have hle := (doPass_ext h main _ _ _ _ _ e1).pre.length_le
       have hbound := bounded_length h hbt1.regOk.objsNodup b1
-      obtain ⟨st', t', e'⟩ := doAll_total hno hwf fuel k st1 hbt1 b1 (by omega)
+      obtain ⟨st', t', e'⟩ := doAll_total hwf hedge hdepth k st1 hbt1 b1 (by omega)
       exact ⟨st', t', by simp only [doAll, e1, hlen, if_false, e']⟩
 
-/-- **`serialize` succeeds** on well-formed graphs without inlined objects. -/
-theorem serialize_total (hno : NoOwn h) (hmain : main < h.length)
-    (hwf : ∀ ob ∈ h, ∀ f ∈ ob.fields, ∀ p, f.val = .ref p → p < h.length) :
+/-- **`serialize` succeeds** on well-formed graphs whose inline edges strictly decrease a bounded depth. -/
+theorem serialize_total {idep : Nat → Nat} (hmain : main < h.length)
+    (hwf : ∀ ob ∈ h, ∀ f ∈ ob.fields, ∀ p, f.val.target = some p → p < h.length)
+    (hedge : ∀ o ob, h[o]? = some ob → ∀ f ∈ ob.fields, ∀ p, f.val = .own p → idep p < idep o)
+    (hdepth : ∀ o, o < h.length → idep o ≤ h.length) :
     ∃ st T, serialize h main = .ok (st, T) := by
   have hb : Bounded h (initS main).reg := by
     intro e he; simp only [initS, List.mem_singleton] at he; subst he; exact hmain
-  exact doAll_total h main hno hwf h.length (h.length + 1) (initS main) (between_init h main) hb
+  exact doAll_total h main hwf hedge hdepth (h.length + 1) (initS main) (between_init h main) hb
     (by simp only [initS, List.length_singleton]; omega)
 
 end
